@@ -78,8 +78,12 @@ GFiles == <<"a", "b", "c">>
 GK(f) == CASE f = "a" -> 1 [] f = "b" -> 2 [] f = "c" -> 3 [] OTHER -> 0
 RECURSIVE SumPub(_, _)
 SumPub(imps, i) == IF i > Len(imps) THEN Var("n") ELSE Bin("+", SumPub(imps, i + 1), ACall(imps[i].alias, "Pub", <<Var("n")>>))
-GBody(f, imps) == <<Def1("G", I(10 * GK(f))), Func("Pub", <<Param("n", "int")>>, <<"int">>, <<RetS(<<Bin("+", SumPub(imps, 1), Var("G"))>>)>>),
-                    PrintS(<<StrL("load " \o f), CallE("Pub", <<I(0)>>)>>)>>
+\* a private (lower-case) counter that every importer bumps from its top-level code: module state must survive being reached again
+GBody(f, imps) == <<Def1("G", I(10 * GK(f))), Def1("hits", I(0)), VarDef(<<"seen">>, "string", <<StrL("-")>>),
+                    Func("Pub", <<Param("n", "int")>>, <<"int">>, <<RetS(<<Bin("+", SumPub(imps, 1), Var("G"))>>)>>),
+                    Func("Hit", <<Param("who", "string")>>, <<"int">>, <<Inc("hits"), Compound("seen", "+", Var("who")), RetS(<<Var("hits")>>)>>),
+                    Func("Seen", <<>>, <<"string">>, <<RetS(<<Var("seen")>>)>>),
+                    PrintS(<<StrL("load " \o f), CallE("Pub", <<I(0)>>)>> \o [i \in 1..Len(imps) |-> ACall(imps[i].alias, "Hit", <<StrL(f)>>)])>>
 GImps(l) == [i \in 1..Len(l) |-> Imp("x" \o l[i] \o ToString(i), l[i] \o ".tsh")]
 MainLists == {<<"a">>, <<"b">>, <<"c">>, <<"a", "b">>, <<"b", "a">>, <<"a", "c">>, <<"c", "a">>, <<"b", "c">>, <<"c", "b">>,
               <<"a", "b", "c">>, <<"c", "b", "a">>, <<"b", "c", "a">>, <<"c", "a", "b">>, <<"a", "a">>, <<"c", "a", "c">>, <<"c", "c", "c">>}
@@ -87,7 +91,7 @@ ALists == {<<>>, <<"b">>, <<"c">>, <<"b", "c">>, <<"c", "b">>}
 BLists == {<<>>, <<"c">>}
 GName(l) == IF l = <<>> THEN "0" ELSE JoinS(l, "")
 AllGraphs == {Mk("C09/graph/m" \o GName(lm) \o "-a" \o GName(la) \o "-b" \o GName(lb), h,
-                 <<F("main.tsh", GImps(lm), [i \in 1..Len(lm) |-> PrintS(<<StrL(lm[i]), ACall(GImps(lm)[i].alias, "Pub", <<I(1)>>)>>)] \o <<Print1(StrL("main"))>>, h),
+                 <<F("main.tsh", GImps(lm), [i \in 1..Len(lm) |-> PrintS(<<StrL(lm[i]), ACall(GImps(lm)[i].alias, "Pub", <<I(1)>>), ACall(GImps(lm)[i].alias, "Hit", <<StrL("m")>>), ACall(GImps(lm)[i].alias, "Seen", <<>>)>>)] \o <<Print1(StrL("main"))>>, h),
                    F("a.tsh", GImps(la), GBody("a", GImps(la)), h), F("b.tsh", GImps(lb), GBody("b", GImps(lb)), h), F("c.tsh", <<>>, GBody("c", <<>>), h)>>)
               : lm \in MainLists, la \in ALists, lb \in BLists, h \in (IF Tier = "quick" THEN {"letter"} ELSE Hashes)}
 \* removal of unused functions: a function whose ONLY use sits at one particular site (every statement and expression position), in the main file or in
